@@ -246,6 +246,9 @@ impl Report {
             violations.len(),
             wall
         );
+        if let Some(n) = self.stats.classes.get("skipped: panic outside the judged call") {
+            println!("WARNING: {n} case(s) skipped because code outside the judged call panicked (see C12 for panics of deserr itself)");
+        }
         if violations.is_empty() {
             0
         } else {
